@@ -258,7 +258,7 @@ def h_real_fiber_history(ctx, variant, k):
 
 
 def jobs(tier):
-    ks = [2, 3] if tier == 'quick' else [2, 3, 4]
+    ks = [2, 3] if tier == 'quick' else [2, 3, 4, 5]
     js = []
     for k in ks:
         for uni in (True, False):
